@@ -142,12 +142,32 @@ pub fn det_records(case: &Case, scratch: &Path, seeds: u64) -> Vec<Value> {
     }
     cs.opening = Default::default();
     let cs_args = write_case_files(&cs, &base.join("in_case"));
+    // a third derived input: six more securities whose cost bases have 28 significant digits (a sale after a
+    // split into thirds), so that the day totals of the cost tables depend on the order of addition
+    let mut ld = case.clone();
+    let d0 = days.first().cloned().unwrap_or(18000);
+    let mk = |sec: &str, day: i64, act: &str, q: &str, p: &str, split: &str| Row {
+        sec: sec.to_string(), td: day, sd: day, act: act.to_string(), af: String::new(), q: Num::S(q.into()), p: Num::S(p.into()), c: Num::S(if act == "Split" { "" } else { "0" }.into()),
+        cur: String::new(), r: Num::S(String::new()), ccur: String::new(), rc: Num::S(String::new()), sfl: String::new(), split: split.to_string(), memo: String::new(),
+    };
+    let mut extra_rows = Vec::new();
+    for i in 0..6i64 {
+        let sec = format!("ZZ{}", i);
+        extra_rows.push(mk(&sec, d0 + i, "Buy", "10", &format!("{}.37", 31 + 7 * i), ""));
+        extra_rows.push(mk(&sec, d0 + 40, "Split", "", "", "1.0-for-3.0"));
+        extra_rows.push(mk(&sec, d0 + 80 + i, "Sell", "1", "40", ""));
+    }
+    ld.files.push(extra_rows);
+    ld.hdr = Vec::new();
+    let ld_args = write_case_files(&ld, &base.join("in_ld"));
     let mut modes = modes;
+    modes.push(("long-decimal-costs", vec!["--print-full-values".into(), "--total-costs".into()], false));
     modes.push(("repeated-columns", vec![], false));
     modes.push(("case-variant-securities", vec!["--total-costs".into()], false));
     let mut out = Vec::new();
     for (mode, extra, csvdir) in modes {
         let file_args = match mode {
+            "long-decimal-costs" => ld_args.clone(),
             "repeated-columns" => dup_args.clone(),
             "case-variant-securities" => cs_args.clone(),
             _ => file_args.clone(),
